@@ -480,6 +480,12 @@ def w_init(ctx, run, rule='R05.1', only=None, floor=None):
                         want = 8 if kind == 'object' else 4
                         desc = f'init[{b.name_of(v_local)} - {b.name_of(j_local)}]'
                         loc = f'{b.file}:{b.line}'
+                        if any(count_atom(a) for a in lin(ji)[0]):
+                            # the entry cursor itself starts inside the entry area (e.g. at the value entries of an object, 4 × count):
+                            # the relation between the two start values is then not the plain "payload area follows the entry words"
+                            run.undecided(rule, b.path, desc, f'the entry cursor starts at {show(ji)[:60]}, inside the entry area; the start of the payload cursor relative to it '
+                                          '(which depends on the payload skipped before) is not decided by this rule', loc)
+                            continue
                         if len(counts) == 1 and not others and d[1] == 0 and list(counts.values())[0] == want:
                             run.proved(rule, b.path, desc, f'= {want} × element count: the payload area starts right after the {"2n" if want == 8 else "n"} entry words', loc)
                         else:
